@@ -41,6 +41,7 @@ def run(ctx):
     r9_headers_only_with_headers(ctx)
     r10_filters_stateless(ctx)
     r11_equality(ctx)
+    r12_header_names(ctx)
 
 
 def r1_complete(ctx, dense, sparse):
@@ -367,6 +368,45 @@ def r10_filters_stateless(ctx):
     ctx.floor("C13.R10", "row filter methods", n, 6)
 
 
+def r12_header_names(ctx):
+    from ..cfg import CFG
+    from ..dataflow import reaching_defs, PARAM
+    ctx.rule("C13.R12", "header names resolve to the column they name after every stage: a wrapper that carries per-position data (encoders) translates a name to its "
+                        "position before using it; EncodeRows takes positions from the header map's values (not from the order the map was written in); "
+                        "DropRows keeps only the surviving columns in its name map")
+    n = 0
+    for c in ctx.model.subclasses(ctx.model.cls(PRIM, "Dense_")):
+        if c.rel != ROWS or "__getitem__" not in c.methods or "__init__" not in c.methods:
+            continue
+        gi, init = c.methods["__getitem__"], c.methods["__init__"]
+        K = gi.args.args[1].arg
+        seq_attrs = {t.attr for x in walk_shallow(init) if isinstance(x, ast.Assign) for t in x.targets if is_self_attr(t) and isinstance(x.value, ast.Name)
+                     and any(a.arg == x.value.id and a.annotation is not None and unparse(a.annotation).startswith(("Sequence", "list", "List")) for a in init.args.args)}
+        seq_attrs -= {"_row"}
+        if not seq_attrs:
+            continue
+        g = CFG(gi)
+        rd = reaching_defs(g, [a.arg for a in gi.args.args])
+        for nd in g.nodes:
+            if nd.ast is None or nd.id not in rd:
+                continue
+            for sub in [x for x in walk_shallow(nd.ast) if isinstance(x, ast.Subscript) and is_self_attr(x.value) and x.value.attr in seq_attrs and isinstance(x.slice, ast.Name) and x.slice.id == K]:
+                n += 1
+                ctx.touch(ROWS, f"{c.name}.__getitem__")
+                ok = rd[nd.id].get(K) != frozenset([PARAM])
+                ctx.ob("C13.R12", ROWS, f"{c.name}.__getitem__", sub, f"the key indexing the per-position list self.{sub.value.attr} was translated from a possible header name first", ok)
+    ctx.floor("C13.R12", "per-position lists indexed by the access key", n, 1)
+    er = ctx.fn(ROWS, "EncodeRows.filter")
+    from ..util import all_guards
+    enum_hdr = [c for c in ast.walk(er) if isinstance(c, ast.Call) and call_name(c) == "enumerate" and c.args and unparse(c.args[0]).endswith(".headers")
+                and not any((not pol) and "isinstance(" in unparse(t) and "Mapping" in unparse(t) for t, pol in all_guards(c, er))]  # enumerating a header *list* is fine
+    ctx.ob("C13.R12", ROWS, "EncodeRows.filter", enum_hdr[0] if enum_hdr else er, "positions of named columns come from the header map's values, not from enumerating the map", not enum_hdr, stmt="encoders by header position")
+    md = ctx.fn(ROWS, "DropRows.make_drop_row_args")
+    maps = [x for x in walk_shallow(md) if isinstance(x, ast.Assign) and isinstance(x.value, (ast.DictComp, ast.Call)) and "enumerate(" in unparse(x.value) and "chain(" in unparse(x.value)]
+    ok = len(maps) == 1 and any(isinstance(g_, (ast.GeneratorExp, ast.ListComp)) and g_.generators[0].ifs for g_ in ast.walk(maps[0].value) if isinstance(g_, (ast.GeneratorExp, ast.ListComp)))
+    ctx.ob("C13.R12", ROWS, "DropRows.make_drop_row_args", maps[0] if maps else md, "the name -> position map handed to KeepDense lists only the columns that survive the drop", ok, stmt="kept names only")
+
+
 def r11_equality(ctx):
     ctx.rule("C13.R11", "a row view equals the eager list/dict it describes whatever its cells hold: Dense_.__eq__ / Sparse_.__eq__ compare list(...) / dict(...) of the "
                         "row (cells are compared with ==, never hashed -- a list- or dict-valued cell must not make a row unequal to itself)")
@@ -400,6 +440,9 @@ def _empty_marker(tree):
 
 
 CONTROLS = [
+    ("EncodeDense indexes its encoders with the raw key", ROWS, M.delete_stmt("EncodeDense.__getitem__", M.text_has("key = key if key.__class__ is int else self._row.headers[key]")), "C13.R12"),
+    ("encoders resolved by enumerating the header map", ROWS, M.replace_expr("EncodeRows.filter", "[enc.get(names.get(i), enc.get(i, lambda x: x)) for i in range(len(first))]", "[enc.get(h, enc.get(i, lambda x: x)) for i, h in enumerate(first.headers)]"), "C13.R12"),
+    ("dropped columns stay in the name map", ROWS, M.replace_expr("DropRows.make_drop_row_args", "(hi for hi in headers if selects[hi[1]])", "headers"), "C13.R12"),
     ("sparse rows compared through frozenset", PRIM, M.replace_expr("Sparse_.__eq__", "dict(self.items()) == dict(o.items())", "frozenset(self.items()) == frozenset(o.items())"), "C13.R11"),
     ("getitem catches ValueError only", ROWS, M.replace_stmt("LazyDense.__getitem__", lambda st: isinstance(st, ast.Try), "try:\n    return enc[key](val)\nexcept ValueError:\n    if val in ['?', '']: return None\n    raise"), "C13.R8"),
     ("empty header map for headerless rows", ROWS, _empty_marker, "C13.R9"),
